@@ -6,6 +6,8 @@
    Assumed of hashicorp/raft (partial): one committed log that every member receives in index order, and that a
    snapshot carries the configuration of its index. The pinset of a member follows C01 (clean ops). *)
 From V Require Import Base.Common Model.C01_RaftLog Proofs.C01_RaftLog Model.C17_Members Proofs.C17_Members.
+From V Require Model.C03_Alloc Model.C04_ClusterOps Proofs.C04_ClusterOps Model.C10_Repin Proofs.C10_Repin Model.C14_Backup
+  Model.C17_Cluster Model.C17_ClusterCheck Proofs.C17_Cluster.
 Open Scope N_scope.
 
 (* AddPeer: the log only grows, no other peer's membership changes, and success means the peer is a member *)
@@ -91,3 +93,165 @@ Example joiner_demo :
   ready [0] cl 1 (mget 1 cl) = true /\ m_applied (mget 1 cl) = m_queued (mget 1 cl) /\ map fst (m_st (mget 1 cl)) = [0] /\
   report [0] cl (mget 0 cl) = report [0] cl (mget 1 cl).
 Proof. exact demo_join_ready. Qed.
+
+(* ======================= the cluster-level clauses (cluster.go PeerRemove / watchPeers / Shutdown) =======================
+   Machine: Model/C17_Cluster.v, on top of the membership wrappers above, C10's re-pin loop and C14's cleanup.
+   Quantification: every state / every event list (who calls, per-attempt Raft outcomes, which LogPin calls are refused,
+   Go map and datastore orders, snapshot-on-shutdown outcome, delivery and watcher schedule), every peer. *)
+Module Cluster.
+Import Model.C03_Alloc Model.C04_ClusterOps Proofs.C04_ClusterOps Model.C10_Repin Proofs.C10_Repin Model.C14_Backup
+  Model.C17_Cluster Proofs.C17_Cluster.
+
+(* once a removal of p has been acknowledged, the entry has reached p and p's watcher has ticked: p is no member, is not
+   running, is marked removed, its data folder is gone, CleanupRaft ran exactly once more and the backups are C14's rotation
+   of the folder as the shutdown left it (a folder without any snapshot is simply deleted) *)
+Theorem removed_peer_stops_and_cleans s caller qc p q o os snap f :
+  aget caller (cs_peers s) = Some qc -> cp_running qc = true ->
+  aget p (cs_peers s) = Some q -> cp_running q = true -> cp_ready q = true -> live (cp_dir q) = Some f ->
+  let r := clstep s (EvPeerRemove caller p o os) in
+  snd r = false ->
+  let s3 := fst (clstep (fst (clstep (fst r) (EvDeliver p))) (EvWatchTick p snap)) in
+  memN p (cfg_peers s3) = false /\
+  exists q', aget p (cs_peers s3) = Some q' /\ cp_running q' = false /\ cp_removed q' = true /\ live (cp_dir q') = None /\
+    cp_cleans q' = S (cp_cleans q) /\
+    olds (cp_dir q') = match snd (shut_folder snap f) with
+                       | Some _ => rotate (cp_keep q) (shut_folder snap f) (olds (cp_dir q))
+                       | None => olds (cp_dir q) end.
+Proof. exact (removed_peer_stops_and_cleans_l s caller qc p q o os snap f). Qed.
+Print Assumptions removed_peer_stops_and_cleans.
+
+(* the tick alone, in every state: a running peer whose own configuration lacks it stops; it cleans iff it had become ready *)
+Theorem watch_tick_removed s p q snap : aget p (cs_peers s) = Some q -> cp_running q = true -> memN p (sees s q) = false ->
+  let s' := fst (clstep s (EvWatchTick p snap)) in
+  exists q', aget p (cs_peers s') = Some q' /\ cp_running q' = false /\ cp_removed q' = true /\
+    cp_dir q' = (if cp_ready q then cleanup (cp_keep q) (snap_dir snap (cp_dir q)) else snap_dir snap (cp_dir q)) /\
+    cp_cleans q' = (if cp_ready q then S (cp_cleans q) else cp_cleans q) /\
+    cs_lg s' = cs_lg s /\ cs_st s' = cs_st s /\ cs_tr s' = cs_tr s /\
+    (forall p', p' <> p -> aget p' (cs_peers s') = aget p' (cs_peers s)).
+Proof. exact (tick_removed_l s p q snap). Qed.
+Print Assumptions watch_tick_removed.
+
+(* a peer that is not marked removed and is not configured to leave keeps its data when it shuts down *)
+Theorem shutdown_keeps_data s p q os snap : aget p (cs_peers s) = Some q -> cp_running q = true ->
+  cp_removed q = false -> cp_leave q = false ->
+  let s' := fst (clstep s (EvShutdown p os snap)) in
+  exists q', aget p (cs_peers s') = Some q' /\ cp_running q' = false /\ cp_removed q' = false /\
+    cp_dir q' = snap_dir snap (cp_dir q) /\ olds (cp_dir q') = olds (cp_dir q) /\
+    (live (cp_dir q) <> None -> live (cp_dir q') <> None) /\ cp_cleans q' = cp_cleans q /\
+    cs_lg s' = cs_lg s /\ cs_tr s' = cs_tr s /\ cs_st s' = cs_st s.
+Proof. exact (shutdown_keeps_data_l s p q os snap). Qed.
+Print Assumptions shutdown_keeps_data.
+
+(* for every event list: a peer (not configured to leave on shutdown) that is marked removed, or whose data was ever
+   cleaned, was at some point of the log not a member of the peerset *)
+Theorem cleaned_only_if_removed_partial s0 evs p q : clinit_ok s0 = true ->
+  aget p (cs_peers (clrun s0 evs)) = Some q -> cp_leave q = false -> cp_removed q = true \/ cp_cleans q <> 0%nat ->
+  exists k, memN p (peers_of (cs_init s0) (firstn k (cs_lg (clrun s0 evs)))) = false.
+Proof. exact (cleaned_only_if_removed_l s0 evs p q). Qed.
+Print Assumptions cleaned_only_if_removed_partial.
+
+(* without that guard the statement is false of the code as written: with LeaveOnShutdown the data is cleaned although
+   leaving failed (here: the only peer of a cluster, which Raft refuses to remove) *)
+Theorem cleaned_only_if_removed_refuted :
+  exists s0 evs p q, clinit_ok s0 = true /\ aget p (cs_peers (clrun s0 evs)) = Some q /\ cp_cleans q <> 0%nat /\
+    forall k, memN p (peers_of (cs_init s0) (firstn k (cs_lg (clrun s0 evs)))) = true.
+Proof. exact cleaned_only_if_removed_refuted_l. Qed.
+Print Assumptions cleaned_only_if_removed_refuted.
+
+(* in the log, for every event list: no re-pin issued by a PeerRemove call follows the configuration entry of that call,
+   and a re-pin and a removal entry of one call belong to PeerRemove(p) issued by the re-pinning peer *)
+Theorem remove_rehomes_first s0 evs : clinit_ok s0 = true ->
+  (forall l1 l2 k p c by_, cs_tr (clrun s0 evs) = l1 ++ (k, TRm p) :: l2 -> ~ In (k, TPin c by_) l2) /\
+  (forall k c by_ p, In (k, TPin c by_) (cs_tr (clrun s0 evs)) -> In (k, TRm p) (cs_tr (clrun s0 evs)) ->
+     exists o os, nth_error evs k = Some (EvPeerRemove by_ p o os)) /\
+  (forall x, In x (cs_tr (clrun s0 evs)) -> exists ev, nth_error evs (fst x) = Some ev /\ entry_from ev (snd x)) /\
+  flat_map (fun x => mem_of (snd x)) (cs_tr (clrun s0 evs)) = cs_lg (clrun s0 evs).
+Proof.
+  exact (fun I => conj (fun l1 l2 k p c by_ => ordering_l s0 evs l1 l2 k p c by_ I)
+               (conj (fun k c by_ p => same_call_l s0 evs k c by_ p I)
+               (conj (trace_explained_l s0 evs I) (trace_is_log_l s0 evs I)))).
+Qed.
+Print Assumptions remove_rehomes_first.
+
+(* what PeerRemove leaves behind (re-pinning enabled, every LogPin accepted), in every state with a well-formed pinset:
+   the pinset is C10's vacate and each pin the removed peer held has C10's outcome - still enough healthy holders without
+   it: untouched; too few: stored with C03's allocation, which excludes the removed peer, logged in this call before the
+   configuration entry; allocation impossible: untouched. Pins made by pin-update are excluded (C10's recorded finding
+   repin-update-redirect); whether RmPeer then succeeds plays no role (nothing is undone when it fails) *)
+Theorem remove_rehomes_partial s caller q target o os c x :
+  aget caller (cs_peers s) = Some q -> cp_running q = true -> r_fail o = [] ->
+  list_oracle (r_lord o) -> map_oracle (r_ord o) -> NoDup (map mpeer (e_metrics (r_env o))) -> inv (cs_st s) ->
+  follower (pc_cfg (cp_pc q)) = false -> pc_norepin (cp_pc q) = false ->
+  aget c (cs_st s) = Some x -> ~ is_update x -> wf_repin (r_env o) x -> NoDup (p_allocs x) -> In target (p_allocs x) ->
+  let s' := fst (clstep s (EvPeerRemove caller target o os)) in
+  let seg := skipn (length (cs_tr s)) (cs_tr s') in
+  let i := repin_input (pc_cfg (cp_pc q)) (r_env o) target x in
+  let now := e_now (r_env o) in
+  ((o_rmin (p_opts x) <= healthy_count now i (p_allocs x) <= o_rmax (p_opts x))%Z -> aget c (cs_st s') = Some x) /\
+  ((healthy_count now i (p_allocs x) < o_rmin (p_opts x))%Z ->
+     match allocate now i (r_ord o c) with
+     | Ok l => aget c (cs_st s') = Some (set_allocs l x) /\ ~ In target l /\ NoDup l /\
+               (o_rmin (p_opts x) <= healthy_count now i l <= o_rmax (p_opts x))%Z /\
+               In (cs_clock s, TPin c caller) seg
+     | _ => aget c (cs_st s') = Some x /\ ~ In (cs_clock s, TPin c caller) seg end).
+Proof. exact (remove_rehomes_l s caller q target o os c x). Qed.
+Print Assumptions remove_rehomes_partial.
+
+(* PeerRemove as a whole: re-pin loop first, then RmPeer, whose error is the result; at a stopped peer nothing happens *)
+Theorem peer_remove_is_vacate_then_rm s caller q target o os : aget caller (cs_peers s) = Some q -> cp_running q = true ->
+  let r := clstep s (EvPeerRemove caller target o os) in
+  let v := vacate_f (cp_pc q) o (cs_st s) target in
+  let m := cons_rm (cs_init s) (cs_lg s) target os in
+  cs_st (fst r) = fst v /\ cs_lg (fst r) = fst m /\ snd r = snd m /\ cs_peers (fst r) = cs_peers s /\
+  cs_tr (fst r) = cs_tr s ++ map (fun c => (cs_clock s, TPin c caller)) (snd v) ++ mem_trace (cs_clock s) (cs_lg s) (fst m).
+Proof. exact (remove_state_l s caller q target o os). Qed.
+Print Assumptions peer_remove_is_vacate_then_rm.
+
+(* no pin is dropped (or created) by PeerRemove: whoever calls it, whatever fails *)
+Theorem remove_never_drops_pins s caller target o os h : list_oracle (r_lord o) -> inv (cs_st s) ->
+  (aget h (cs_st (fst (clstep s (EvPeerRemove caller target o os)))) = None <-> aget h (cs_st s) = None).
+Proof. exact (remove_never_drops_l s caller target o os h). Qed.
+Print Assumptions remove_never_drops_pins.
+
+(* nor by any event that is not a user call: the pinset is identical; and every reachable pinset keeps C04's invariant *)
+Theorem membership_events_keep_pinset s ev evs : 
+  (touches_pins ev = false -> cs_st (fst (clstep s ev)) = cs_st s) /\ (inv (cs_st s) -> inv (cs_st (clrun s evs))).
+Proof. exact (conj (other_events_keep_pinset_l s ev) (clrun_inv evs s)). Qed.
+Print Assumptions membership_events_keep_pinset.
+
+(* with re-pinning disabled (or in follower mode) PeerRemove is RmPeer and nothing else: pinset identical, no LogPin *)
+Theorem repinning_disabled_only_removes s caller q target o os : aget caller (cs_peers s) = Some q -> cp_running q = true ->
+  pc_norepin (cp_pc q) = true \/ follower (pc_cfg (cp_pc q)) = true ->
+  let r := clstep s (EvPeerRemove caller target o os) in
+  let m := cons_rm (cs_init s) (cs_lg s) target os in
+  cs_st (fst r) = cs_st s /\ cs_lg (fst r) = fst m /\ snd r = snd m /\ cs_peers (fst r) = cs_peers s /\
+  cs_tr (fst r) = cs_tr s ++ mem_trace (cs_clock s) (cs_lg s) (fst m) /\
+  (forall x, In x (mem_trace (cs_clock s) (cs_lg s) (fst m)) -> x = (cs_clock s, TRm target)).
+Proof. exact (remove_disabled_l s caller q target o os). Qed.
+Print Assumptions repinning_disabled_only_removes.
+
+(* the boolean form evaluated on what the implementation logged during one PeerRemove call is sound: re-pins by the caller
+   first, then at most the configuration entry of the removed peer *)
+Theorem remove_order_okb_sound caller target es : Model.C17_ClusterCheck.remove_order_ok caller target false es = true ->
+  exists cs rm, es = map (fun c => TPin c caller) cs ++ rm /\ (rm = [] \/ rm = [TRm target]).
+Proof. exact (remove_order_ok_sound caller target es). Qed.
+Print Assumptions remove_order_okb_sound.
+
+(* ---- non-vacuity: peer 0 removes peer 2, the only holder of CID 1; peer 2 is told, ticks, stops and cleans; peer 1 is
+        shut down by its operator and keeps its data ---- *)
+Example cluster_demo :
+  clinit_ok Demo.s0 = true /\
+  let s := clrun Demo.s0 Demo.evs in
+  cs_tr s = [(0%nat, TPin 1 0); (0%nat, TRm 2)] /\ cs_lg s = [ERm 2] /\ cfg_peers s = [0; 1] /\
+  aget 1 (cs_st s) = Some (set_allocs [0] Demo.x) /\
+  map (fun pq => (fst pq, cp_running (snd pq), cp_removed (snd pq), cp_cleans (snd pq), live (cp_dir (snd pq)), olds (cp_dir (snd pq)) 0%nat))
+      (cs_peers s) =
+  [(1, false, false, 0%nat, Some (2, Some 6), None); (2, false, true, 1%nat, None, Some (3, Some 5)); (0, true, false, 0%nat, Some (1, None), None)].
+Proof. exact Demo.run. Qed.
+Example leave_failed_demo :
+  clinit_ok leave_s0 = true /\
+  let s := clrun leave_s0 [EvShutdown 0 [Done; Done] None] in
+  exists q, aget 0 (cs_peers s) = Some q /\ cp_cleans q = 1%nat /\ live (cp_dir q) = None /\ olds (cp_dir q) 0%nat = Some (1, Some 7) /\
+            cs_lg s = [] /\ cfg_peers s = [0].
+Proof. exact leave_failed_still_cleans. Qed.
+End Cluster.
